@@ -4,7 +4,7 @@
     regenerated from command/src/state.rs on every run (CfgState/Gen.v). *)
 From stdpp Require Import gmap strings.
 From Coq Require Import NArith.
-From SV Require Import CfgState.Model CfgState.Spec CfgState.Gen CfgState.GenSteps CfgState.Proofs C07.Worker.
+From SV Require Import CfgState.Model CfgState.Spec CfgState.Gen CfgState.GenSteps CfgState.Proofs C07.Worker C07.Tags.
 Open Scope N_scope.
 
 (** General theorem on step lists: if every fallible step (flood-knob
@@ -163,6 +163,23 @@ Proof.
   repeat split; [apply add_http_frontend_no_trace_refuted|apply add_https_frontend_no_trace_refuted
                 |apply add_tcp_frontend_no_trace_refuted|apply add_certificate_no_trace_refuted].
 Qed.
+
+(** * Worker side, the tags a listener keeps per hostname ([C07.Tags]:
+    HttpProxy::add_http_frontend / HttpsProxy::add_https_frontend and the two
+    remove_*_frontend): a refused frontend or removal leaves neither the
+    routes nor the tags changed, for every validity predicate of the router
+    and every state *)
+Theorem worker_front_refused_no_trace :
+  forall (valid : N -> bool) s v, snd (Tags.step valid s v) = false -> fst (Tags.step valid s v) = s.
+Proof. exact Tags.tags_refused_no_trace. Qed.
+
+(** an accepted frontend records its own tags; tags are kept exactly while the
+    hostname still has a route, after every history of adds and removes *)
+Theorem worker_front_tags_follow_routes :
+  forall (valid : N -> bool),
+    (forall s r t, snd (Tags.step valid s (VAdd r t)) = true -> tags (fst (Tags.step valid s (VAdd r t))) = Some t)
+    /\ (forall l, Tags.served (Tags.run valid l)).
+Proof. intros valid. split; [apply Tags.tags_follow_accepted_add|apply Tags.tags_only_for_served_hostname]. Qed.
 
 (** non-vacuity: a reachable, non-empty state in which a listener patch with
     good fields and one bad validated field is rejected *)
